@@ -1130,3 +1130,13 @@ Theorem C19_buf_fetch_be32_agrees_generated : forall b old,
     (st = ARES_SUCCESS -> v' = v) /\ (st <> ARES_SUCCESS -> v' = old /\ b' = b).
 Proof. exact buf_fetch_be32_agrees_generated. Qed.
 Print Assumptions C19_buf_fetch_be32_agrees_generated.
+
+Theorem C19_buf_append_start_agrees_generated : forall junk ok b len ptr r,
+  ptr <> 0%Z ->
+  (len =? 0)%Z = false -> buf_ensure_space junk ok b len = Ok r ->
+  exists o,
+    buf_append_start junk ok b len = Ok (o, snd r) /\
+    c_ares_buf_append_start len (fst r) (cb_alloc (snd r)) (cb_dlen (snd r)) ptr
+      = Ok (match o with Some _ => ptr | None => 0%Z end, match o with Some n => n | None => len end).
+Proof. exact buf_append_start_agrees_generated. Qed.
+Print Assumptions C19_buf_append_start_agrees_generated.
